@@ -374,8 +374,20 @@ def _roundtrip_one(ctx, r, kind, i):
     cov = ctx.cov
     n = r.randint(2, 12)
 
+    int_dt = r.choice([np.int64, np.int32, np.uint8, np.int16]) if r.random() < 0.25 else None
+
     def data(d, two=False):
-        return two_valued(r, n, d) if two else raw_matrix(r, n, d)[0]
+        if two:
+            return two_valued(r, n, d)
+        A = raw_matrix(r, n, d)[0]
+        if int_dt is not None:
+            # integer-typed measurements (counts, pixel values, ticks): finite data with non-constant columns all the same
+            span = float(np.max(np.abs(A))) or 1.0
+            B = np.round((A - A.min()) / (2 * span) * r.choice([49, 100, 255])).astype(int_dt)
+            if all(len(set(B[:, j].tolist())) >= 2 for j in range(B.shape[1])):
+                cov.hit(f"integer-typed-data:{np.dtype(int_dt).name}")
+                return B
+        return A
 
     def fail(cond, what, rep):
         name = kind.split(":")[-1] if kind.startswith("elem:") else kind
